@@ -70,7 +70,7 @@ structure Sizes where
 
 /-- which room-ID check the version's parse function applies (column newEventFromTrustedJSONFunc) -/
 inductive RoomCheck where
-  | checkID       -- newEventFromTrustedJSONV1 / V2: checkRoomIDField = checkID(room_id, "room", '!'), then spec.NewRoomID
+  | checkID       -- newEventFromTrustedJSONV1 / V2: checkRoomIDField
   | prefixOnly    -- newEventFromTrustedJSONV3: checkRoomID = "starts with !", then spec.NewRoomID (non-create events)
   deriving DecidableEq, Repr
 
@@ -97,34 +97,49 @@ def checkIDSize (maxID : Nat) (i : IDSize) : Outcome :=
   else if i.bytes > maxID then .tooLargePersistable
   else .ok
 
+/-- checkRoomIDField: checkID, whose persistable byte-limit error is turned into a NON-persistable one
+    (no event is returned for it), then spec.NewRoomID -/
+def checkRoomIDField (maxID : Nat) (room : IDSize) (roomValid : Bool) : Outcome :=
+  match checkIDSize maxID room with
+  | .ok => if roomValid then .ok else .other
+  | .tooLargePersistable => .tooLarge
+  | e => e
+
 def soft (lenient : Bool) : Outcome := if lenient then .tooLargePersistable else .tooLarge
 
-/-- CheckFields (auth / prev lists non-nil) -/
+/-- CheckFields (auth / prev lists non-nil), /repo 591c527: JSON length; then ALL hard code-point limits
+    (type, state key, sender: every version); then, except for RoomVersionPseudoIDs, the sender's shape
+    (':' present, '@' sigil); then the byte limits (type, state key: Persistable = lenient table;
+    sender: Persistable = true, every version) -/
 def checkFields (p : Params) (s : Sizes) : Outcome :=
   if s.jsonLen > p.maxEvent then .tooLarge
   else if s.typeCP > p.maxID then .tooLarge
   else if s.hasStateKey && s.skCP > p.maxID then .tooLarge
+  else if s.sender.cp > p.maxID then .tooLarge
+  else if !p.senderExempt && !s.sender.hasColon then .other
+  else if !p.senderExempt && !s.sender.sigilOk then .other
   else if s.typeBytes > p.maxID then soft p.lenient
   else if s.hasStateKey && s.skBytes > p.maxID then soft p.lenient
-  else if p.senderExempt then .ok
-  else checkIDSize p.maxID s.sender
+  else if s.sender.bytes > p.maxID then .tooLargePersistable
+  else .ok
 
 /-- the room-ID check of the parse functions (non-create events) -/
 def roomCheckOutcome (p : Params) (s : Sizes) : Outcome :=
   match p.roomCheck with
-  | .checkID => (checkIDSize p.maxID s.room).andThen (if s.roomValid then .ok else .other)
+  | .checkID => checkRoomIDField p.maxID s.room s.roomValid
   | .prefixOnly => if !s.room.sigilOk then .other else if s.roomValid then .ok else .other
 
-/-- NewEventFromTrustedJSON followed by CheckFields (= the tail of NewEventFromUntrustedJSON for an
-    event whose content hash matches, = the tail of EventBuilder.Build) -/
+/-- NewEventFromTrustedJSON followed by CheckFields (= the tail of EventBuilder.Build) -/
 def verdict (p : Params) (s : Sizes) : Outcome :=
   (roomCheckOutcome p s).andThen (checkFields p s)
 
-/-- NewEventFromUntrustedJSON for an event whose content hash does NOT match: the event is redacted
-    first (`redactedLen` = length of the redacted canonical JSON; type, state key, sender and room ID
-    survive redaction), then parsed again and checked.  The length check sees the REDACTED event. -/
-def verdictBadHash (p : Params) (s : Sizes) (redactedLen : Nat) : Outcome :=
-  verdict p { s with jsonLen := redactedLen }
+/-- NewEventFromUntrustedJSON (/repo 38b1ab6): room-ID check; the size limit on the canonical event AS
+    RECEIVED, before the content hash is looked at; if the hash does not match the event is redacted
+    (`checkedLen` = length of the redacted canonical JSON; type, state key, sender and room ID survive
+    redaction) and CheckFields sees the redacted event; if it matches, `checkedLen = s.jsonLen`. -/
+def verdictUntrusted (p : Params) (s : Sizes) (checkedLen : Nat) : Outcome :=
+  (roomCheckOutcome p s).andThen
+    (if s.jsonLen > p.maxEvent then .tooLarge else checkFields p { s with jsonLen := checkedLen })
 
 /-- sizes of concrete fields (valid UTF-8) -/
 def idSize (sigil : UInt8) (id : BS) : IDSize :=
